@@ -173,7 +173,7 @@ def _compare_buildable(x: Buildable, y: Buildable, check_dag: bool = False):
     if isinstance(v1, Buildable) and isinstance(v2, Buildable):
       if not _compare_buildable(v1, v2, check_dag=False):
         return False
-    if v1 != v2:
+    if v1 is not v2 and v1 != v2:
       return False
 
   # Compare the DAG structure.
